@@ -312,6 +312,9 @@ func (ex *executor) loopEnter(n *node, li *loopInfo, st *state) {
 		t := ex.evalBoolClause(inv, st, ex.root().entry, nil)
 		ex.assume(st, t)
 	}
+	// an invariant conjunct `x == e` for a variable x havocked by this loop: continue with e as the value of
+	// x (it is equal, and later expressions over x then coincide syntactically with specifications over e)
+	ex.substInvariantEqualities(lc, st)
 	for _, u := range lc.Unfolds {
 		ex.applyUnfold(u, st)
 	}
@@ -624,4 +627,70 @@ func (ex *executor) assumedUnder(st *state, t *Term) bool {
 		}
 	}
 	return false
+}
+
+func (ex *executor) substInvariantEqualities(lc *LoopContract, st *state) {
+	sub := map[int]*Term{}
+	var conj func(t *Term)
+	conj = func(t *Term) {
+		if t.op == "and" {
+			for _, a := range t.args {
+				conj(a)
+			}
+			return
+		}
+		if t.op != "=" || len(t.args) != 2 {
+			return
+		}
+		for k := 0; k < 2; k++ {
+			x, e := t.args[k], t.args[1-k]
+			if x.op == "var" && strings.HasPrefix(x.name, "lp.") && !e.bound && e.op != "const" && !mentions(e, x) {
+				if _, dup := sub[x.id]; !dup {
+					sub[x.id] = e
+				}
+				return
+			}
+		}
+	}
+	for _, inv := range lc.Invariants {
+		conj(ex.evalBoolClause(inv, st, ex.root().entry, nil))
+	}
+	if len(sub) == 0 {
+		return
+	}
+	for c, v := range st.cells {
+		ch := false
+		nc := make([]*Term, len(v.C))
+		for i, t := range v.C {
+			nc[i] = t
+			if e, ok := sub[t.id]; ok && e.sort == t.sort {
+				nc[i] = e
+				ch = true
+			}
+		}
+		if ch {
+			st.cells[c] = Value{T: v.T, K: v.K, C: nc}
+		}
+	}
+}
+
+func mentions(t, x *Term) bool {
+	seen := map[int]bool{}
+	var rec func(t *Term) bool
+	rec = func(t *Term) bool {
+		if t == x {
+			return true
+		}
+		if seen[t.id] {
+			return false
+		}
+		seen[t.id] = true
+		for _, a := range t.args {
+			if rec(a) {
+				return true
+			}
+		}
+		return false
+	}
+	return rec(t)
 }
